@@ -23,7 +23,7 @@ func init() {
 			{Name: "l1-programs", Fn: scnC03L1, Weight: 3, Group: c03Group},
 			{Name: "syncmap-linearizable", Fn: scnC03SyncMap, Weight: 1, Group: c03Group},
 		},
-		Rule: "tape-generated concurrent programs (2-4 tasks, <=8 tracker operations) x schedules " +
+		Rule: "tape-generated concurrent programs (2-5 tasks, <=10 tracker operations: logins, invalid logins, events of one or two sessions incl. one session's events from two tasks, events of a session the tracker never saw a LOGIN record for, cleanup with a past or future cut-off) x schedules " +
 			"(baseline, systematic single-preemption sweep over (tasks completed first, preempted task, point), PCT d<=3, random, biased); " +
 			"plus the GenericSyncMap both maps are built on: concurrent Store/Load/Has/Delete/Len/Iterate/WithLockedValueDo histories checked for linearizability against a plain map (porcupine); " +
 			"non-trivial = at least one preemption of a task that was still runnable (a context switch inside an operation sequence); " +
@@ -38,6 +38,25 @@ type c03Program struct {
 	Prog   [][]L1Op
 	Probes []L1Op
 	Desc   []string
+}
+
+// c03MaxOrders bounds the number of sequential orders executed as the reference of one program.
+const c03MaxOrders = 20000
+
+// interleavings is the number of orders in which the operations of the tasks can be executed one
+// at a time, keeping each task's own order (a multinomial coefficient), saturating.
+func interleavings(prog [][]L1Op) int {
+	n, total := 1, 0
+	for _, ops := range prog {
+		for i := 1; i <= len(ops); i++ {
+			total++
+			n = n * total / i
+			if n > 1<<40 {
+				return 1 << 40
+			}
+		}
+	}
+	return n
 }
 
 func genC03Program(t *simrt.Tape) *c03Program {
@@ -116,11 +135,34 @@ func genC03Program(t *simrt.Tape) *c03Program {
 		p.Prog = append(p.Prog, ops)
 		p.Probes = append(p.Probes, L1Op{Kind: "event", S: 1, E: n})
 	}
+	untracked := -1
+	if t.Choose(3, "untracked") == 2 {
+		// records of a session the tracker never saw a LOGIN record for (opened before the daemon
+		// started, or not by sshd): most of a real audit stream; nothing is emitted for them
+		o := &Session{Ses: "599", PID: 4900, UID: 1009, Kind: "orphan"}
+		var ops []L1Op
+		for i, n := 0, 1+t.Choose(2, "untracked.n"); i < n; i++ {
+			o.Events = append(o.Events, GenAction(t, k, o.Ses, o.PID, o.UID))
+			ops = append(ops, L1Op{Kind: "event", S: len(w.Sessions), E: i})
+		}
+		w.Sessions = append(w.Sessions, o)
+		p.Prog = append(p.Prog, ops)
+		untracked = len(p.Prog) - 1
+	}
 	switch t.Choose(3, "cleanup") {
 	case 1:
 		p.Prog = append(p.Prog, []L1Op{{Kind: "cleanup", Cut: -3600}})
 	case 2:
 		p.Prog = append(p.Prog, []L1Op{{Kind: "cleanup", Cut: 3600}})
+	}
+	// the reference (every sequential order of the tasks' operations) must stay enumerable
+	for untracked >= 0 && interleavings(p.Prog) > c03MaxOrders {
+		if ops := p.Prog[untracked]; len(ops) > 1 {
+			p.Prog[untracked] = ops[:len(ops)-1]
+		} else {
+			p.Prog = append(p.Prog[:untracked], p.Prog[untracked+1:]...)
+			untracked = -1
+		}
 	}
 	for ti, ops := range p.Prog {
 		var ss []string
@@ -201,13 +243,19 @@ func scnC03L1(rc *RunCtx) {
 
 	ce := seqCache[key]
 	if ce == nil {
-		outs, n := p.World.seqOutcomes(p.Prog, p.Probes, 20000)
+		outs, n := p.World.seqOutcomes(p.Prog, p.Probes, c03MaxOrders+1)
 		ce = &seqCacheEntry{outs, n}
 		seqCache[key] = ce
 	}
 	rc.R.Stats = addStat(rc.R.Stats, "c03.seq_orders", ce.n)
 	rc.State(hashStr(obs))
 	if _, ok := ce.outs[obs]; !ok {
+		if ce.n > c03MaxOrders {
+			// the enumeration of sequential orders was cut off: no verdict from this run
+			rc.Sim.Count("c03.reference_truncated")
+			rc.R.NonTrivial = false
+			return
+		}
 		var all []string
 		for o, ord := range ce.outs {
 			all = append(all, fmt.Sprintf("%s  (e.g. order %s)", o, ord))
